@@ -4,6 +4,7 @@ import ScriggoV.Spec.Slots
 import ScriggoV.Spec.HtmlTok
 import ScriggoV.Model.LexCtx
 import ScriggoV.Drv.Lexer
+import ScriggoV.Model.MacroFast
 /-! C06 line protocol.
 `C06 scan <which> <hex>` → `ok 0|1`: is the byte string slot-confined per Spec/Slots.lean;
                            which ∈ data dq sq unq name raw jsdq jssq json cssdq csssq
@@ -15,7 +16,12 @@ import ScriggoV.Drv.Lexer
                            after the bytes; ctx ∈ html tag quotedAttr unquotedAttr js jsString css cssString, or
                            `ok none -` (no claim / outside class D: `ok bad -`)
 `C06 lexctx <hex> <n>`   → `ok <pos> <ctx> <url>`: Model/LexCtx.lean's `ctxAt` on the text at offset n (ctx as the
-                           number of ast.Context) -/
+                           number of ast.Context)
+`C06 fastpath <from> <ctx>` → `ok <macroGuard> <renderGuard> <choice> <conv> <agrees>`: Model/MacroFast.lean over the
+                           regenerated tables, for the codes of an ast.Format and an ast.Context: do the two fast
+                           paths accept the pair, the renderer OpCallMacro chooses (0 same, 2 buffered + converted,
+                           3 fresh on the same output), what the generic path does to a result of that format there
+                           (identity converter other none), and whether the two agree -/
 namespace ScriggoV.Drv.C06
 open ScriggoV ScriggoV.Escape ScriggoV.Slots
 
@@ -81,7 +87,16 @@ def lexctx (text : Bytes) (n : Nat) : String :=
   let s := LexCtx.ctxAt (Drv.Lexer.mkUnicode []) text n
   "ok " ++ toString s.pos ++ " " ++ toString s.ctx ++ " " ++ bit s.url
 
+def fastpath (f c : Nat) : String :=
+  "ok " ++ bit (Gen.ShowFastPath.macroGuard f c) ++ " " ++ bit (Gen.ShowFastPath.renderGuard f c) ++ " " ++
+    toString (Gen.ShowFastPath.callMacroChoice (c : Int) f) ++ " " ++ MacroFast.convName (MacroFast.genericConv f c) ++ " " ++
+    bit (MacroFast.vmAgreesWithGeneric f c)
+
 def handle : List String → Option String
+  | ["fastpath", f, c] => do
+    let f ← f.toNat?
+    let c ← c.toNat?
+    pure (fastpath f c)
   | ["tok", h] => do
     let p ← fromHex h
     pure (tok p)
